@@ -191,6 +191,55 @@ def private_state(ctx, pfx):
                        'field %s.%s is visible outside its module (%s): code elsewhere can alter cache/transaction state' % (adtname, f['n'], f['vis']))
 
 
+def put_unconditional(ctx, pfx):
+    """write-through: TimedCache::put / batch_put store every record they are given
+    (map insert, or the epoch-record slot) — a skipped put leaves an older entry of
+    the same key in place, which keeps being served"""
+    prog = ctx.prog
+    for fn in ('put', 'batch_put'):
+        b = prog.fn_and_inner(TC_ + fn)
+        ins = [ev['pos'][0] for ev, c in find_events(b, 'DashMap::insert') if access_path(arg(c, 0)) == 'self.map']
+        slot = []
+        for pos, s in b.stmts():
+            if s.get('k') == 'assign' and '*' in s['p'][1:]:
+                rv = b._expr_rvalue(s['r'], pos, 0)
+                if rv[0] == 'agg' and rv[1] == 'Option' and rv[2] == 'Some' and has_leaf(b.expr_place([s['p'][0]], pos), 'self.azks'):
+                    slot.append(pos[0])
+        ok = bool(ins and slot)
+        detail = 'no map insert / epoch-record slot write found'
+        if ok:
+            if fn == 'put':
+                ks = b.exits((0, 0), avoid_blocks=ins + slot) - {'Diverge'}
+                ok = not ks
+                detail = 'every path through put stores the record (map insert or epoch-record slot)' if ok else \
+                    'put can return without storing the record (exit kinds %s): a stale entry of the same key stays in the cache' % sorted(ks)
+            else:
+                hdr = [pos[0] for pos, t in b.call_sites() if (short(t.get('res') or t.get('fn')) or '').endswith('::next')]
+                bad = None
+                for h in hdr:
+                    t = b.blocks[h]['t']
+                    bb = t['t']
+                    sw = None
+                    for _ in range(4):
+                        if b.blocks[bb]['t']['k'] == 'switch':
+                            sw = bb
+                            break
+                        nx = b.succ(bb)
+                        if len(nx) != 1:
+                            break
+                        bb = nx[0]
+                    if sw is None:
+                        continue
+                    names = variant_names(b, {'term': b.blocks[sw]['t']})
+                    some = [tb for v, tb in b.blocks[sw]['t']['vals'] if names.get(v) == 'Some']
+                    if some and h in b.reach_avoiding(some, avoid_blocks=ins + slot):
+                        bad = 'an iteration of batch_put can complete without storing its record'
+                ok = bad is None and bool(hdr)
+                detail = 'every iteration of batch_put stores its record' if ok else (bad or 'no loop over the records found')
+        ctx.ob('%s.ORDER.put_unconditional[%s]' % (pfx, fn), 'RF-ORDER', ok, b.path, '%s:%s' % (b.file, b.line), detail,
+               key='RF-ORDER|put_unconditional|%s' % fn)
+
+
 def clean_only_removes(ctx, pfx):
     prog = ctx.prog
     cl = prog.fn_and_inner(TC_ + 'clean')
@@ -225,9 +274,13 @@ def reads_fill_cache_from_db(ctx, pfx):
             for ev, c in find_events(b, cal):
                 n += 1
                 a = arg(c, 1)
-                ok = any(has_call(a, r) for r in DB_READS)
+                pend = [x for x in calls_in(a) if (x[1] or '').startswith(TX) or call_is(x, 'TimedCache::hit_test')]
+                ok = any(has_call(a, r) for r in DB_READS) and not pend
                 ctx.ob('%s.BIND.read_put[%s]' % (pfx, name), 'RF-BIND', ok, b.path, '%s:%s' % (b.file, ev['line']),
-                       'cached value is the database result' if ok else 'read path caches a value that is not the database result: %s' % show(a)[:120])
+                       'cached value is exactly the database result' if ok else
+                       'read path caches a value that is not purely the database result%s: %s' % (
+                           ' (it includes pending transaction-log / cache values: %s)' % short(pend[0][1]) if pend else '', show(a)[:120]),
+                       key='RF-BIND|read_put|%s' % name)
     ctx.ob('%s.BIND.read_put.count' % pfx, 'FLOOR', n >= 3, SM, None, '%d cache fills on read paths (get, batch_get, get_user_state)' % n)
 
 
